@@ -776,6 +776,22 @@ func renderTx(r *Rendered, tx *Tx, ei int, line *int, emit func(*lineBuf, LineIn
 				renderAmount(b, &p.Assert.A, "assert.", feats)
 				feats["posting.assert"] = true
 			}
+		} else if p.Assert != nil {
+			// a balance assertion on a posting without amount: "assets:cash  = 100 EUR"
+			sep := p.Sep
+			if !strings.Contains(sep, "\t") && len(sep) < 2 {
+				sep = "  "
+			}
+			b.w(sep)
+			if p.Assert.Strict {
+				b.span("op", "==")
+			} else {
+				b.span("op", "=")
+			}
+			b.w(strings.Repeat(" ", p.Assert.SpAfter))
+			renderAmount(b, &p.Assert.A, "assert.", feats)
+			feats["posting.assert"] = true
+			feats["posting.assert-no-amount"] = true
 		}
 		if p.Comment != nil {
 			feats["posting.comment"] = true
